@@ -311,6 +311,13 @@ pub fn suite_http(dir: &str, seed: u64, thorough: bool, st: &mut Stats) {
             // C07: requests are the maximal runs; C08: items are exactly the requested bytes
             if log != runs(&ranges) {
                 st.violation("C07", &format!("requests {:?} are not the maximal runs {:?}", log, runs(&ranges)), &line);
+                // C06: every byte of chunk data is requested once -- here (no failing transfer) more bytes were asked for
+                let asked: u64 = log.iter().map(|r| r.1).sum();
+                let wanted: u64 = ranges.iter().map(|r| r.1 as u64).sum();
+                let distinct = { let mut u = ranges.clone(); u.sort(); u.dedup(); u.len() == ranges.len() };
+                if distinct && asked > wanted {
+                    st.violation("C06", &format!("{} bytes of chunk data requested for {} bytes wanted (no failing transfer): {:?}", asked, wanted, log), &line);
+                }
             }
             let want: Vec<Result<Vec<u8>, String>> = ranges.iter().map(|(o, s)| Ok(file[*o as usize..*o as usize + s].to_vec())).collect();
             if items != want { st.violation("C08", "http reader did not deliver exactly the requested bytes", &line); }
